@@ -7,7 +7,7 @@ From stdpp Require Import gmap.
 From HV Require Import Evm.ExecModel Evm.JournalProofs Evm.SupplyProofs Evm.ConservationProofs.
 Local Open Scope Z_scope.
 
-Definition clean (W : world) (a : N) : obj := mkobj (zg (bank W) a) ∅ ∅ ∅.
+Definition clean (W : world) (a : N) : obj := mkobj (zg (bank W) a) ∅ ∅ ∅ false.
 
 (** [D'] is [D] plus clean loads of existing accounts *)
 Definition lz (W : world) (D D' : sdb) : Prop :=
@@ -77,34 +77,38 @@ Proof.
   split; [|split; [|split]].
   - (* lz *)
     rewrite !undo_split. unfold undo_dirt, undo_core. split; [|split; [|split]].
-    + destruct e as [a p|a k p|a|]; cbn; try (destruct (Hpres a eq_refl) as (o & -> & ->)); reflexivity.
-    + destruct e as [a p|a k p|a|]; cbn; try (destruct (Hpres a eq_refl) as (o & -> & ->)); cbn; rewrite ?Hd; reflexivity.
-    + destruct e as [a p|a k p|a|]; cbn; try (destruct (Hpres a eq_refl) as (o & -> & ->)); cbn; rewrite ?Hl; reflexivity.
-    + intros b. destruct e as [a p|a k p|a|]; cbn.
+    + destruct e as [a p|a k p|a| |a p pb]; cbn; try (destruct (Hpres a eq_refl) as (o & -> & ->)); reflexivity.
+    + destruct e as [a p|a k p|a| |a p pb]; cbn; try (destruct (Hpres a eq_refl) as (o & -> & ->)); cbn; rewrite ?Hd; reflexivity.
+    + destruct e as [a p|a k p|a| |a p pb]; cbn; try (destruct (Hpres a eq_refl) as (o & -> & ->)); cbn; rewrite ?Hl; reflexivity.
+    + intros b. destruct e as [a p|a k p|a| |a p pb]; cbn.
       * destruct (Hpres a eq_refl) as (o & -> & ->). cbn.
         destruct (decide (a = b)) as [->|]; [left; by rewrite !lookup_insert|rewrite !lookup_insert_ne by done; apply Ho].
       * destruct (Hpres a eq_refl) as (o & -> & ->). cbn.
         destruct (decide (a = b)) as [->|]; [left; by rewrite !lookup_insert|rewrite !lookup_insert_ne by done; apply Ho].
       * destruct (decide (a = b)) as [->|]; [left; by rewrite !lookup_delete|rewrite !lookup_delete_ne by done; apply Ho].
       * apply Ho.
+      * destruct (Hpres a eq_refl) as (o & -> & ->). cbn.
+        destruct (decide (a = b)) as [->|]; [left; by rewrite !lookup_insert|rewrite !lookup_insert_ne by done; apply Ho].
   - (* epd *)
     unfold epd. rewrite journal_undo. cbn [journal].
     assert (Hdom : dom (objs (undo (mksdb (objs D) r (dirties D) (logs D)) e)) =
                    match e with JCreate a => dom (objs D) ∖ {[a]} | _ => dom (objs D) end).
     { rewrite undo_split. unfold undo_dirt, undo_core.
-      destruct e as [a p|a k p|a|]; cbn.
+      destruct e as [a p|a k p|a| |a p pb]; cbn.
       - destruct (Hpres a eq_refl) as (o & Hoa & _). rewrite Hoa. cbn. rewrite dom_insert_L.
         assert (a ∈ dom (objs D)) by (apply elem_of_dom; eauto). set_solver.
       - destruct (Hpres a eq_refl) as (o & Hoa & _). rewrite Hoa. cbn. rewrite dom_insert_L.
         assert (a ∈ dom (objs D)) by (apply elem_of_dom; eauto). set_solver.
       - by rewrite dom_delete_L.
-      - done. }
+      - done.
+      - destruct (Hpres a eq_refl) as (o & Hoa & _). rewrite Hoa. cbn. rewrite dom_insert_L.
+        assert (a ∈ dom (objs D)) by (apply elem_of_dom; eauto). set_solver. }
     rewrite Hdom. exact Hep2.
   - (* cntd *)
     intros b. rewrite journal_undo. cbn [journal]. specialize (Hc b). rewrite Hj in Hc. cbn [cnt] in Hc.
     rewrite undo_split. unfold undo_dirt.
     assert (Hdc : dirties (undo_core (mksdb (objs D) r (dirties D) (logs D)) e) = dirties D).
-    { unfold undo_core. destruct e as [a0 p|a0 k p|a0|]; cbn; try destruct (objs D !! a0); reflexivity. }
+    { unfold undo_core. destruct e as [a0 p|a0 k p|a0| |a0 p pb]; cbn; try destruct (objs D !! a0); reflexivity. }
     destruct (dirtied e) as [a|] eqn:Hde; cbn; rewrite ?Hdc.
     + destruct (decide (Some a = Some b)) as [Heq|Hneq].
       * inversion Heq; subst b.
@@ -165,7 +169,7 @@ Proof.
 Qed.
 
 Lemma sim_create W D D' a : sim W D D' -> objs D !! a = None -> a ∉ wexists W ->
-  sim W (japp (set_obj D a (mkobj 0 ∅ ∅ ∅)) (JCreate a)) (japp (set_obj D' a (mkobj 0 ∅ ∅ ∅)) (JCreate a)).
+  sim W (japp (set_obj D a (mkobj 0 ∅ ∅ ∅ false)) (JCreate a)) (japp (set_obj D' a (mkobj 0 ∅ ∅ ∅ false)) (JCreate a)).
 Proof.
   intros Hsim Hn Hne. pose proof Hsim as ((Hjj & Hd & Hl & Ho) & Hep & Hc & Hwf).
   split; [|split; [|split]].
@@ -195,7 +199,7 @@ Proof.
       rewrite bool_decide_eq_true_2 in E by done. cbn in E. by rewrite lookup_insert in E. }
     assert (E' : objs L' !! a = None).
     { destruct Hl as ((_ & _ & _ & Ho) & _). destruct (Ho a) as [Heq|(_ & Hin & _)]; [congruence|done]. }
-    rewrite E'. split; [by apply sim_create|]. exists (mkobj 0 ∅ ∅ ∅). cbn. by rewrite !lookup_insert.
+    rewrite E'. split; [by apply sim_create|]. exists (mkobj 0 ∅ ∅ ∅ false). cbn. by rewrite !lookup_insert.
 Qed.
 
 Lemma sim_set_bal W D D' a v o : sim W D D' -> objs D !! a = Some o ->
@@ -212,6 +216,22 @@ Lemma sim_add_bal W D D' a amt : sim W D D' -> sim W (add_bal W D a amt) (add_ba
 Proof.
   intros Hsim. unfold add_bal. destruct (sim_get_or_new W D D' a Hsim) as [Hs (o & Ho & Ho')].
   destruct (amt =? 0); [done|]. rewrite (sim_cbal _ _ _ _ _ Hs Ho). by eapply sim_set_bal.
+Qed.
+
+Lemma sim_suicide W D D' a o : sim W D D' -> objs D !! a = Some o -> sim W (suicide D a) (suicide D' a).
+Proof.
+  intros Hsim E. unfold suicide. rewrite E, (sim_obj _ _ _ _ _ Hsim E).
+  apply (sim_push W D D' a o); auto. intros b Hb. inversion Hb.
+Qed.
+
+Lemma add_bal_keeps W D a b amt : is_Some (objs D !! a) -> is_Some (objs (add_bal W D b amt) !! a).
+Proof.
+  intros H. unfold add_bal.
+  assert (H1 : is_Some (objs (get_or_new W D b) !! a)).
+  { unfold get_or_new. pose proof (load_keeps W D b a H) as H0. destruct (objs (load W D b) !! b) eqn:E; [done|].
+    cbn. destruct (decide (b = a)) as [->|]; [rewrite lookup_insert; eauto|by rewrite lookup_insert_ne]. }
+  destruct (amt =? 0); [done|]. unfold set_bal. destruct (objs (get_or_new W D b) !! b) eqn:E; [|done].
+  cbn. destruct (decide (b = a)) as [->|]; [rewrite lookup_insert; eauto|by rewrite lookup_insert_ne].
 Qed.
 
 Lemma sim_add_log W D D' : sim W D D' -> sim W (add_log D) (add_log D').
@@ -232,7 +252,7 @@ Proof.
             | None => match ostor o !! k with
                       | Some c => (c, o)
                       | None => (zg (store W) (a, k),
-                                 mkobj (obal o) (dstor o) (<[k := zg (store W) (a, k)]> (ostor o)) (tstor o))
+                                 mkobj (obal o) (dstor o) (<[k := zg (store W) (a, k)]> (ostor o)) (tstor o) (osui o))
                       end
             end) as [prev o1].
   destruct (prev =? v).
@@ -327,12 +347,22 @@ Theorem pure_instr_lock : forall i, pure i = true ->
   forall order o self W D D', sim W D D' ->
     lock W (exec_instr order o self i (W, D)) (exec_instr order o self i (W, D')).
 Proof.
-  induction i as [k v| | |a|t v c r body IH|p v c r] using instr_ind'; intros Hp order o self W D D' Hsim;
+  induction i as [k v| | |a|b|t v c r body IH|p v c r] using instr_ind'; intros Hp order o self W D D' Hsim;
     cbn [exec_instr].
   - mklock. by apply sim_set_state.
   - mklock. by apply sim_add_log.
   - mklock. exact Hsim.
   - mklock. by apply sim_load.
+  - pose proof (sim_load W D D' self Hsim) as Hl0.
+    destruct (objs (load W D self) !! self) as [os|] eqn:E.
+    + rewrite (sim_obj _ _ _ _ _ Hl0 E). mklock.
+      pose proof (sim_add_bal W _ _ b (obal os) Hl0) as H1.
+      destruct (add_bal_keeps W (load W D self) self b (obal os)) as [o1 Ho1]; [rewrite E; eauto|].
+      by eapply sim_suicide.
+    + assert (E' : objs (load W D' self) !! self = None).
+      { destruct Hl0 as ((_ & _ & _ & Ho) & _). destruct (Ho self) as [Heq|(_ & Hin & _)]; [congruence|].
+        exfalso. destruct (load_loads W D self Hin) as [x Hx]. congruence. }
+      rewrite E'. mklock. exact Hl0.
   - cbn [pure] in Hp. apply after_call_lock. apply do_call_lock; [done|].
     intros D1 D1' Hs1. destruct (N.leb 2 t && N.leb t 4); [|mklock; exact Hs1].
     clear Hsim D D'. revert D1 D1' Hs1.
@@ -374,6 +404,7 @@ Lemma commit_one_csim W D D' a : csim D D' -> is_Some (dirties D !! a) ->
   csim (snd (fst (commit_one W D a))) (snd (fst (commit_one W D' a))).
 Proof.
   intros (Hd & Ho) Ha. destruct (Ho a Ha) as [[o Hoa] Heq]. unfold commit_one. rewrite <- Heq, Hoa.
+  destruct (osui o); [cbn [fst snd]; split; [done|]; split; [done|]; split; done|].
   destruct (obal o <? 0); [cbn [fst snd]; split; [done|]; split; [done|]; split; done|].
   destruct ((0 <? obal o - zg (bank _) a) && blocked a); [cbn [fst snd]; split; [done|]; split; [done|]; split; done|].
   destruct (commit_storage _ a o) as [W2 o2]. cbn [fst snd].
@@ -410,7 +441,7 @@ Qed.
 
 Lemma sim_empty_sat W l : (forall a, a ∈ wexists W -> a ∈ l) -> sim W sdb0 (sat_cache W l).
 Proof.
-  intros Hall. destruct (sat_cache_ok W l Hall) as (Hwf & Hcoh & Hd).
+  intros Hall. destruct (sat_cache_ok W l Hall) as (Hwf & Hcoh & Hd & _).
   assert (Hci : journal (sat_cache W l) = [] /\ logs (sat_cache W l) = O).
   { unfold sat_cache. assert (H : forall l D, journal D = [] /\ logs D = O ->
         journal (fold_left (fun D a => load W D a) l D) = [] /\ logs (fold_left (fun D a => load W D a) l D) = O).
@@ -448,9 +479,9 @@ Qed.
     lazily loading [run_tx] started from the empty cache *)
 Corollary pure_run_tx_conserves_supply order W0 value c body :
   NoDup order -> world_ok W0 -> (forall a, a ∈ wexists W0 -> a ∈ order) -> 0%N ∈ order -> c ∈ order ->
-  forallb pure body = true -> forallb (closedb order) body = true ->
+  forallb pure body = true -> forallb nosd body = true -> forallb (closedb order) body = true ->
   supply (fst (run_tx order W0 value (TopCall c body))) = supply W0.
 Proof.
-  intros Hnd Hw Hall H0 Hc Hp Hcl. rewrite (pure_run_tx_lazy_eq_saturated order W0 value c body order Hall Hp).
+  intros Hnd Hw Hall H0 Hc Hp Hns Hcl. rewrite (pure_run_tx_lazy_eq_saturated order W0 value c body order Hall Hp).
   by apply pure_tx_conserves_supply_from_clean.
 Qed.
